@@ -122,7 +122,7 @@ if ( jcol == MIN_COL ) {
     pivmax = 0.0;
     pivptr = nsupc;
     diag = SLU_EMPTY;
-    old_pivptr = nsupc;
+    old_pivptr = SLU_EMPTY;
     for (isub = nsupc; isub < nsupr; ++isub) {
         rtemp = c_abs1 (&lu_col_ptr[isub]);
 	if ( rtemp > pivmax ) {
@@ -149,6 +149,7 @@ if ( jcol == MIN_COL ) {
     thresh = u * pivmax;
     
     /* Choose appropriate pivotal element by our policy. */
+    if ( *usepr && old_pivptr == SLU_EMPTY ) *usepr = 0; /* remembered row not in this column */
     if ( *usepr ) {
         rtemp = c_abs1 (&lu_col_ptr[old_pivptr]);
 	if ( rtemp != 0.0 && rtemp >= thresh )
